@@ -34,6 +34,7 @@ struct Scn
   bool peerFirst;   // the peer may close before the client does
   int weight;
   unsigned allowed; // bitmask of admissible error codes (1u << int(TransportError))
+  bool clientTlsConfigured = true; // false: TLS is requested on a transport whose client TLS is not enabled
 };
 static constexpr unsigned E(TransportError e) { return 1u << unsigned(e); }
 static const unsigned kT = E(TransportError::Timeout);
@@ -52,6 +53,8 @@ static const Scn kScn[] = {
   {"resolve-fail", TK::Accept, false, false, false, false, 1, kT | E(TransportError::Resolve)},
   {"resolve-slow-fail", TK::Accept, false, false, false, false, 1, kT | E(TransportError::Resolve)},
   {"resolve-slow-ok", TK::Accept, true, false, true, false, 2, kT},
+  // TLS requested but never configured on the client: success would be a clear-text session
+  {"tls-requested-not-configured", TK::TlsOk, true, true, false, false, 1, kT | E(TransportError::Config) | E(TransportError::TLSHandshake), false},
 };
 static const int kNScn = int(sizeof kScn / sizeof kScn[0]);
 
@@ -162,7 +165,11 @@ static void runBatch(uint64_t seed, uint64_t idx, vfnet::Pki &pki, int onlyScn)
   // ---- timeouts: swept through 0,1,2,5 ms ... so that completion and expiry collide
   std::vector<uint32_t> sweep;
   if (S.canSucceed) sweep = {0, 0, 1, 1, 2, 2, 3, 5, 5, 8, 13, 20, 3000, 3000, 3000};
-  else sweep = {0, 1, 2, 5, 10, 30, 80};
+  else
+  {
+    sweep = {0, 1, 2, 5, 10, 30, 80};
+    if (si != 2 && si != 8) { sweep.push_back(1000); sweep.push_back(1000); } // targets that answer: let the definite error win sometimes
+  }
   if (cancellable && (si == 2 || si == 8)) sweep = {150, 250, 320};
   std::vector<uint32_t> stallUs = {0, 200, 500, 1000, 1500, 2000, 3000, 5000, 8000, 13000};
 
@@ -183,7 +190,7 @@ static void runBatch(uint64_t seed, uint64_t idx, vfnet::Pki &pki, int onlyScn)
 
   // ---- transport
   TransportConfig cfg;
-  if (S.tls)
+  if (S.tls && S.clientTlsConfigured)
   {
     cfg.clientTls.enabled = true;
     cfg.clientTls.defaultMode = TlsMode::Client;
